@@ -115,8 +115,14 @@ func baseChecks(prop string, ex *vsched.Exec, allowDeadlock bool) []vsched.Viola
 		vs = append(vs, vsched.Violation{Sig: prop + " panic " + panicSite(p.Stack), Msg: "netpoll panicked: " + p.Val + "\n" + p.Stack})
 	}
 	if l := vsyscall.L(); l != nil {
+		// the descriptor ledger is active in every scheduled scenario; its verdicts belong to C15
 		for _, b := range l.BadCloses {
-			vs = append(vs, vsched.Violation{Sig: prop + " bad-close", Msg: b})
+			vs = append(vs, vsched.Violation{Sig: "C15 bad-close scenario=" + strings.SplitN(prop, " ", 2)[0], Msg: b})
+		}
+		for _, r := range l.Recs {
+			if r.Owner == "netpoll" && r.Closes > 1 {
+				vs = append(vs, vsched.Violation{Sig: "C15 closed-twice kind=" + r.Kind, Msg: fmt.Sprintf("descriptor %d (%s) was closed %d times by netpoll", r.Fd, r.Kind, r.Closes)})
+			}
 		}
 	}
 	return vs
